@@ -427,23 +427,27 @@ package main
 
 //@ func traverseMapPath
 //@   safety C07
+//@   props C05 C14 C01
 //@   assigns Arr:Str
 //@   requires table: operatorMap != nil && isTable(operatorMap)
 //@   loop 1 invariant table-walk: tableVal(current)
 //@   ensures table-value: implies(result1, tableVal(result0) && result0 != nil)
 //@   ensures nil-when-absent: implies(!result1, result0 == nil)
 //@   ensures key-path-frame: unchangedBelowExcept("Arr:Str", base(path))
+//@   ensures the-lookup-leaves-the-key-path-as-it-is {C05,C14,C01}: unchangedBelow("Arr:Str")
 //@   loop 1 invariant table-entry: (_idx == 0 && current == VMap(operatorMap)) || (_idx >= 1 && TE(path[_idx-1], current))
 //@   ensures range-frame: unchangedOutside("Arr:Str", base(path), off(path), off(path) + len(path) - 1)
 //@   ensures table-entry {C01,C02,C03,C04,C05,C12,C14,C15,C19}: implies(result1 && isOp(result0) && result0 != VOp(5), (len(path) >= 1 && TE(old(path[len(path)-1]), result0)) || MarkerTE(result0))
 
 //@ func getOp
 //@   safety C07
+//@   props C05 C14 C01
 //@   assigns Arr:Str
 //@   requires nonempty-path: len(keyPath) >= 1
 //@   ensures table-value: implies(result1, tableVal(result0))
 //@   ensures nil-when-absent: implies(!result1, result0 == nil)
 //@   ensures key-path-frame: unchangedBelowExcept("Arr:Str", base(keyPath))
+//@   ensures the-lookup-leaves-the-key-path-as-it-is {C05,C14,C01}: unchangedBelow("Arr:Str")
 //@   ensures range-frame: unchangedOutside("Arr:Str", base(keyPath), off(keyPath), off(keyPath) + len(keyPath) - 1)
 //@   ensures table-entry {C01,C02,C03,C04,C05,C12,C14,C15,C19}: implies(result1 && isOp(result0) && result0 != VOp(5), TE(old(keyPath[len(keyPath)-1]), result0) || MarkerTE(result0))
 //@   trusted_ensures: result0 == opAtVal(old(selems(keyPath)), off(keyPath), len(keyPath), isSearchStage) && result1 == opAtOk(old(selems(keyPath)), off(keyPath), len(keyPath), isSearchStage)
